@@ -1259,6 +1259,12 @@ fn partial_family(cfg: &Cfg, rep: &mut Report, model: &mut Model) {
           }
         }
       }
+      // a body such as `partial` doubles the size of the result with every iteration: beyond seven iterations
+      // the expectation (and the implementation's answer) would not fit into memory
+      if firsts.len() > 7 {
+        rep.hit("partial:form left out (more than seven iterations)");
+        continue;
+      }
       let mut results: Vec<Pv> = vec![];
       for v in &firsts {
         let r = (b.f)(*v, &results);
